@@ -62,7 +62,7 @@ def _detect_ssc(
     except StopIteration:
         return (file, False)
 
-    if isinstance(file, TextIO):
+    if isinstance(file, TextIOWrapper) or isinstance(file, TextIO):
         file.seek(0)
 
     return (file, first_param.key is not None and first_param.key.upper() == "VERSION")
